@@ -4,7 +4,7 @@
    token stream from the real implementation. *)
 From Coq Require Import String Ascii.
 From Radius Require Import Base.Bytes Base.Guard Base.Res Gen.Consts
-  Model.Mem Model.Attrs Model.Packet Model.Passwords Model.Codecs Model.Client Model.Exchange Model.Dict Model.DictMerge Model.MSCHAP Spec.C19 Model.Vendor Model.Helpers Model.Dispatch Spec.C06 Model.Shutdown Model.ShutdownSched Spec.C05 Spec.C10 Spec.C09 Spec.C01 Spec.C03 Spec.C04 Spec.C11.
+  Model.Gen Model.Mem Model.Attrs Model.Packet Model.Passwords Model.Codecs Model.Client Model.Exchange Model.Dict Model.DictMerge Model.MSCHAP Spec.C19 Model.Vendor Model.Helpers Model.Dispatch Spec.C06 Model.Shutdown Model.ShutdownSched Spec.C05 Spec.C10 Spec.C09 Spec.C01 Spec.C03 Spec.C04 Spec.C11.
 From Radius Require Import Crypto.MD5 Crypto.SHA1 Crypto.MD4 Crypto.DES Crypto.UTF16.
 Open Scope list_scope.
 Open Scope nat_scope.
@@ -541,6 +541,91 @@ Definition dispatch_mem (name : bytes) (bs : list bytes) (zs : list Z) : option 
     end
   else None.
 
+(* ---- C17: the generator's decision layer ---- *)
+Definition zopt (z : Z) : option Z := if (z <? 0)%Z then None else Some z.
+Definition bopt (z : Z) : option bool := if (z <? 0)%Z then None else Some (z =? 1)%Z.
+Fixpoint take_gattrs (n : nat) (zs : list Z) (bs : list bytes) : list gattr * (list Z * list bytes) :=
+  match n with
+  | O => ([], (zs, bs))
+  | S n' =>
+    match zs, bs with
+    | ol :: zs1, nm :: idn :: bs1 =>
+      let k := Z.to_nat ol in
+      match skipn k zs1 with
+      | ty :: sz :: en :: tg :: cc :: zs2 =>
+        let '(r, rest) := take_gattrs n' zs2 bs1 in
+        (mkgattr nm idn (firstn k zs1) ty (zopt sz) (zopt en) (bopt tg) (bopt cc) :: r, rest)
+      | _ => ([], (zs, bs))
+      end
+    | _, _ => ([], (zs, bs))
+    end
+  end.
+Fixpoint take_gvals (n : nat) (zs : list Z) (bs : list bytes) : list gvalue * (list Z * list bytes) :=
+  match n with
+  | O => ([], (zs, bs))
+  | S n' =>
+    match zs, bs with
+    | num :: zs1, at_ :: nm :: idn :: bs1 =>
+      let '(r, rest) := take_gvals n' zs1 bs1 in (mkgvalue at_ nm idn num :: r, rest)
+    | _, _ => ([], (zs, bs))
+    end
+  end.
+Fixpoint take_gvendors (n : nat) (zs : list Z) (bs : list bytes) : list gvendor :=
+  match n with
+  | O => []
+  | S n' =>
+    match zs, bs with
+    | num :: tl_ :: ll :: na :: nv :: zs1, nm :: idn :: bs1 =>
+      let '(attrs, (zs2, bs2)) := take_gattrs (Z.to_nat na) zs1 bs1 in
+      let '(vals, (zs3, bs3)) := take_gvals (Z.to_nat nv) zs2 bs2 in
+      mkgvendor nm idn num tl_ ll attrs vals :: take_gvendors n' zs3 bs3
+    | _, _ => []
+    end
+  end.
+Fixpoint take_pairs (n : nat) (bs : list bytes) : list (bytes * bytes) * list bytes :=
+  match n with
+  | O => ([], bs)
+  | S n' => match bs with a :: b :: r => let '(ps, rest) := take_pairs n' r in ((a, b) :: ps, rest) | _ => ([], bs) end
+  end.
+
+Definition fcode (f : fname) : Z :=
+  match f with FAdd => 0 | FAddString => 1 | FGet => 2 | FGetString => 3 | FGets => 4 | FGetStrings => 5
+             | FLookup => 6 | FLookupString => 7 | FSet => 8 | FSetString => 9 | FDel => 10 end.
+Definition vcode (v : vtype) : Z :=
+  match v with VBytes => 0 | VString => 1 | VIP => 2 | VHW => 3 | VNet => 4 | VTime => 5 | VNamed => 6 | VByte => 7 end.
+Definition zb (b : bool) : Z := if b then 1 else 0.
+Definition t_gdecl (d : gdecl) : list tok :=
+  match d with
+  | DTypeConst i n => [TI 1; TB i; TI n]
+  | DVendorConst i n => [TI 2; TB i; TI n]
+  | DExtInit i vs => TI 3 :: TI (zlen vs) :: flat_map (fun v => [TB i; TB (fst v); TI (snd v)]) vs
+  | DIntType i b => [TI 4; TB i; TI b]
+  | DValueConst i v n => [TI 5; TB i; TB v; TI n]
+  | DStrings i => [TI 6; TB i]
+  | DStringer i => [TI 7; TB i]
+  | DFunc i FDel _ _ _ => [TI 8; TB i; TI 10; TI 0; TI 0; TI 0]
+  | DFunc i f tg q vt => [TI 8; TB i; TI (fcode f); TI (zb tg); TI (zb q); TI (vcode vt)]
+  | DVendorFunc i w => [TI 9; TB i; TI w]
+  end.
+
+Definition dispatch_gen (name : bytes) (bs : list bytes) (zs : list Z) : option (list tok) :=
+  if name_is name "m.gen" || name_is name "s.gen" then
+    match zs with
+    | ni :: ne :: na :: nv :: nn :: zs0 =>
+      let ign := firstn (Z.to_nat ni) bs in
+      let '(ext, bs1) := take_pairs (Z.to_nat ne) (skipn (Z.to_nat ni) bs) in
+      let '(attrs, (zs1, bs2)) := take_gattrs (Z.to_nat na) zs0 bs1 in
+      let '(vals, (zs2, bs3)) := take_gvals (Z.to_nat nv) zs1 bs2 in
+      let vendors := take_gvendors (Z.to_nat nn) zs2 bs3 in
+      match gen (mkgopts ign ext) (mkgdict attrs vals vendors) with
+      | Ok ds => Some (TI 0 :: flat_map t_gdecl ds)
+      | Err e => Some [TI (-1); TI (Z.of_N e)]
+      | _ => Some [TI (-2)]
+      end
+    | _ => Some [TI (-94)]
+    end
+  else None.
+
 Definition dispatch (name : bytes) (bs : list bytes) (zs : list Z) : list tok :=
   if name_is name "m.attrs_run" then run_attrs false bs zs
   else if name_is name "s.attrs_run" then run_attrs true bs zs
@@ -557,7 +642,8 @@ Definition dispatch (name : bytes) (bs : list bytes) (zs : list Z) : list tok :=
   match dispatch_mschap name bs zs with Some t => t | None =>
   match dispatch_helper name bs zs with Some t => t | None =>
   match dispatch_mem name bs zs with Some t => t | None =>
-  [TI (-97)] end end end end end end end end end end end end.
+  match dispatch_gen name bs zs with Some t => t | None =>
+  [TI (-97)] end end end end end end end end end end end end end.
 
 Require Extraction.
 Require Import ExtrOcamlBasic.
